@@ -80,8 +80,9 @@ def run(rep, tier):
                         "error rules for all 17 losses; non-negativity; per-sample locality. Oracle part (asserted, not re-computed, by TLC): "
                         "central differences along a random direction and the convexity inequality with a 1e-9 relative tolerance for all "
                         "%d registered function prototypes at dims 1..32 in boxes of radius 1e-3..10 and for the exp/log/atan losses with "
-                        "outputs in [-30, 30]. NOT covered: adversarial hill-climbing on the violation, the linear/gboost objectives (their "
-                        "exact lattice gradients are part of C09)." % nfun,
+                        "real-valued outputs in [-30, 30] (all 17 losses; error rules recomputed on the real predictions). NOT covered: adversarial "
+                        "hill-climbing on the violation, the linear/gboost objectives (their exact lattice gradients and the definition oracle over all "
+                        "losses are part of C09)." % nfun,
             evaluations=total, distinct_nontrivial=count["Stencil"] + declared + count["Loss"], records=count, functions=sorted(fns),
             losses=sorted(losses), declared_convex_pairs=declared, states=states, transitions=states, traces_validated_against_impl=total)
     rep.assume("partial claim: exact on the lattice, oracle-based elsewhere")
